@@ -1,5 +1,5 @@
 \* link archives with the verdict of the model under "links materialised unconditionally": esc = 1 marks the dangerous ones
-CONSTANTS TitleClean = "rooted" ExtractGuard = "reroot" LinkPolicy = "raw" DeleteValidates = TRUE MaxFull = 1 MaxCore = 1
+CONSTANTS TitleClean = "rooted" ExtractGuard = "reroot" Whiteout = "none" LinkPolicy = "raw" DeleteValidates = TRUE MaxFull = 1 MaxCore = 1
   Eps = {"lnk"}
 CONSTANT WithVerdict = TRUE
 INIT Init
